@@ -33,6 +33,8 @@ impl Payload {
 }
 impl Drop for Payload {
     fn drop(&mut self) {
+        // the crate runs this destructor somewhere inside its data operations: other threads may run here
+        user_point("payload-drop");
         DROPS.lock().unwrap()[self.id] += 1;
     }
 }
@@ -53,6 +55,9 @@ pub enum Op {
     Pop,
     Reset,
     Set(u32),
+    /// `set_data` without keeping the handle it returns: the slot is then the payload's only owner, so whichever
+    /// operation takes it out of the slot also runs its destructor
+    SetForget(u32),
     TrySet(u32),
     Get,
     Clear,
@@ -73,6 +78,7 @@ pub fn show_prog(p: &Prog) -> String {
                     Op::Pop => "pop".into(),
                     Op::Reset => "reset".into(),
                     Op::Set(v) => format!("set{}", v),
+                    Op::SetForget(v) => format!("sf{}", v),
                     Op::TrySet(v) => format!("try{}", v),
                     Op::Get => "get".into(),
                     Op::Clear => "clear".into(),
@@ -257,7 +263,7 @@ fn run_thread(cx: ThreadCtx<'_>, root: Node, ops: &[Op]) {
                 cx.sched.record_op(cx.t, "reset".into());
             }
             Op::Lean => {}
-            Op::Set(_) | Op::TrySet(_) | Op::Get | Op::Clear => {
+            Op::Set(_) | Op::SetForget(_) | Op::TrySet(_) | Op::Get | Op::Clear => {
                 let node: Node = match &cur {
                     NodeOrToken::Node(n) => n.clone(),
                     NodeOrToken::Token(t) => t.parent().clone(),
@@ -272,6 +278,13 @@ fn run_thread(cx: ThreadCtx<'_>, root: Node, ops: &[Op]) {
                         let a = node.set_data(Payload::new(*v));
                         let r = format!("set {} -> {}", v, a.v);
                         cx.held.lock().unwrap()[cx.t].push(a);
+                        r
+                    }
+                    Op::SetForget(v) => {
+                        let v = &uniq(*v);
+                        let a = node.set_data(Payload::new(*v));
+                        let r = format!("setf {} -> {}", v, a.v);
+                        drop(a);
                         r
                     }
                     Op::TrySet(v) => match { let v = uniq(*v); (v, node.try_set_data(Payload::new(v))) } {
@@ -313,6 +326,7 @@ pub fn execute(tree: &RefTree, prog: &Prog, root_first: bool, choose: &mut dyn F
     let n = prog.len();
     let sched = Sched::new(n);
     cstree::verif::set_hook(Some(sched.clone() as Arc<dyn cstree::verif::Hook>));
+    set_current(Some(sched.clone()));
     let payload_base = DROPS.lock().unwrap().len();
     let obs = Mutex::new(vec![]);
     let data = Mutex::new(vec![]);
@@ -371,6 +385,7 @@ pub fn execute(tree: &RefTree, prog: &Prog, root_first: bool, choose: &mut dyn F
     drop(held);
     drop(root_opt.take());
     cstree::verif::set_hook(None);
+    set_current(None);
     let mut st = sched.take();
     let mut violations: Vec<(String, String)> = vec![];
     for t in panics.into_inner().unwrap() {
@@ -435,7 +450,32 @@ pub fn execute(tree: &RefTree, prog: &Prog, root_first: bool, choose: &mut dyn F
     }
 }
 
-/// sequential specification of the data slot, applied in completion order
+/// The data operations in the order in which they took effect: each operation is placed where it released the data lock
+/// for the last time (its answer is decided inside that critical section); an operation that took no lock is placed where
+/// it completed.  Completion order is not good enough: user code (a payload's destructor) runs between the critical
+/// section and the return, and other threads may be scheduled there.
+pub fn linearise_data(e: &Exec) -> Vec<(usize, String)> {
+    let mut last_rel: HashMap<usize, usize> = HashMap::new();
+    let mut keyed: Vec<(usize, usize, String)> = vec![];
+    for (ix, (t, ev)) in e.trace.iter().enumerate() {
+        match ev {
+            Ev::Note(Note::Released { what: cstree::verif::LockKind::Data, .. }) => {
+                last_rel.insert(*t, ix);
+            }
+            Ev::Op(s) => {
+                let is_data = ["set ", "setf ", "tryset ", "get ", "clear "].iter().any(|p| s.starts_with(p));
+                if is_data {
+                    keyed.push((last_rel.remove(t).unwrap_or(ix), *t, s.clone()));
+                }
+            }
+            _ => {}
+        }
+    }
+    keyed.sort_by_key(|k| k.0);
+    keyed.into_iter().map(|(_, t, s)| (t, s)).collect()
+}
+
+/// sequential specification of the data slot, applied in the order in which the operations took effect
 pub fn check_data_log(log: &[(usize, String)], violations: &mut Vec<(String, String)>) {
     let mut cell: HashMap<String, Option<u32>> = HashMap::new();
     for (t, s) in log {
@@ -443,7 +483,7 @@ pub fn check_data_log(log: &[(usize, String)], violations: &mut Vec<(String, Str
         let c = cell.entry(slot.to_string()).or_insert(None);
         let ws: Vec<&str> = body.split(' ').collect();
         let bad = match ws.as_slice() {
-            ["set", v, "->", r] => {
+            ["set", v, "->", r] | ["setf", v, "->", r] => {
                 let ok = v == r;
                 *c = v.parse().ok();
                 !ok
@@ -521,7 +561,7 @@ pub fn monitor_lines(e: &Exec, nthreads: usize) -> Vec<String> {
     for (ix, (t0, ev)) in e.trace.iter().enumerate() {
         let t = tix(*t0);
         match ev {
-            Ev::Point(PointKind::Start) => {}
+            Ev::Point(PointKind::Start) | Ev::Point(PointKind::User(_)) => {}
             // the end of a read section of a slot: followed (in the same run segment) by a hit or a miss
             // note unless it is the re-read after `try_write`
             Ev::Note(Note::Released { write: false, what: cstree::verif::LockKind::Slot, .. }) => {
@@ -758,6 +798,10 @@ fn fixed_programs(what: &str) -> Vec<(Prog, bool)> {
             (vec![vec![Op::Set(1), Op::Clear], vec![Op::Get, Op::TrySet(2)], vec![Op::Get]], true),
             (vec![vec![n("fcn"), Op::TrySet(1)], vec![n("fcn"), Op::TrySet(2), Op::Get]], false),
             (vec![vec![Op::Set(1), Op::Set(2)], vec![Op::Get, Op::Get]], true),
+            // the slot is the only owner of a payload: its destructor runs inside whichever operation removes it
+            (vec![vec![Op::SetForget(1), Op::Clear, Op::Get], vec![Op::SetForget(2), Op::Get, Op::TrySet(3)]], false),
+            (vec![vec![Op::SetForget(1), Op::Clear], vec![Op::Set(2), Op::Get], vec![Op::Get, Op::Clear]], true),
+            (vec![vec![Op::SetForget(1), Op::SetForget(2), Op::Get], vec![Op::Clear, Op::TrySet(3), Op::Get]], false),
         ],
     }
 }
@@ -784,8 +828,9 @@ fn random_program(rng: &mut Rng, what: &str) -> (Prog, bool) {
                     3 => Op::Child(rng.below(3)),
                     _ => rng.pick(&nav_ops()).clone(),
                 },
-                _ => match rng.below(7) {
+                _ => match rng.below(8) {
                     0 => Op::Set(1 + rng.below(3) as u32),
+                    7 => Op::SetForget(1 + rng.below(3) as u32),
                     1 | 2 => Op::TrySet(4 + rng.below(3) as u32),
                     3 | 4 => Op::Get,
                     5 => Op::Clear,
@@ -868,6 +913,10 @@ pub fn run_conc(what: &str, seed: u64, tier: &str, outdir: &str) {
             Some((outdir.to_string(), format!("tree={} prog={} root_first={}", tree.dump(), show_prog(prog), root_first)));
         let mut handle = |e: Exec, mode: &str, ops: &mut Vec<String>, imp: &mut Vec<String>, oracle: &mut Vec<String>, case: &mut usize| {
             let mut e = e;
+            let lin = linearise_data(&e);
+            if lin.len() == e.data_log.len() {
+                e.data_log = lin;
+            }
             check_data_log(&e.data_log, &mut e.violations);
             if std::env::var("CONC_DUMP_CASE").ok().and_then(|v| v.parse::<usize>().ok()) == Some(*case) {
                 for (t, ev) in &e.trace {
@@ -899,6 +948,11 @@ pub fn run_conc(what: &str, seed: u64, tier: &str, outdir: &str) {
                 };
                 match ws.as_slice() {
                     ["set", v, "->", r] => push(format!("dev {} s{} set {}", t, slot, v), format!("arc {}", r)),
+                    ["setf", v, "->", r] => {
+                        push(format!("dev {} s{} set {}", t, slot, v), format!("arc {}", r));
+                        // the handle that came back is dropped at once
+                        push(format!("dev {} s{} drop {}", t, slot, v), "ok".into());
+                    }
                     ["tryset", v, "->", "ok", r] => push(format!("dev {} s{} tryset {}", t, slot, v), format!("arc {}", r)),
                     ["tryset", v, "->", "err", r] => {
                         push(format!("dev {} s{} tryset {}", t, slot, v), format!("back {}", r));
@@ -913,6 +967,7 @@ pub fn run_conc(what: &str, seed: u64, tier: &str, outdir: &str) {
                 n_dev += 1;
                 let key = match ws.as_slice() {
                     ["set", ..] => "data_set",
+                    ["setf", ..] => "data_set_forget",
                     ["tryset", _, "->", "ok", _] => "data_tryset_won",
                     ["tryset", ..] => "data_tryset_refused",
                     ["get", "->", "some", _] => "data_get_some",
